@@ -16,7 +16,8 @@ LEVEL_TEXT = ("session_pool(json) -> session_cookies driven through session_inte
               "exactly. For payloads whose cipher text is <= 420 bytes all single-bit flips, truncations, block swaps and "
               "byte/block splices are enumerated; larger ones are sampled at both ends and at random positions.")
 LEVEL_NOTE = ("A forgery that needs a MAC collision or key search is beyond any search; 'reveals nothing' is tested only as: no "
-              "aligned 16-byte block repeats among cipher texts of equal payloads (same and fresh encryptor objects) and no 8 "
+              "aligned 16-byte block (IV block included) repeats among cipher texts of equal / common-prefix payloads issued by the same and by "
+              "fresh encryptor objects under interleavings of load and save (load X, save P twice; two loads; failed load; ...) and no 8 "
               "payload bytes occur verbatim in the cipher text. IVs come from /dev/urandom inside the code under test, so cipher "
               "texts (not verdicts) differ between replays. Keys derived by the undocumented KDF (aesN with a key of another "
               "length) get no reference-made cookies. Cookie texts that are not canonical base64url (cppcms' decoder maps foreign "
@@ -96,6 +97,8 @@ MUTATIONS = [
     dict(name="short-plain-off-by-one", edits=[("src/session_cookies.cpp", "if(tmp.size() < sizeof(time_t)) {", "if(tmp.size() + 1 < sizeof(time_t)) {")]),
     # own: constant IV instead of a nonce
     dict(name="aes-constant-iv", edits=[("src/aes_encryptor.cpp", "\t\tcbc_->set_nonce_iv();", "\t\t{ char z[16] = {0}; cbc_->set_iv(z,16); }")]),
+    # own (after seeded/C05-1): decrypt seeds the cbc object's IV with the client's first block; cbc::set_iv also sets the encryption IV
+    dict(name="aes-decrypt-sets-iv-from-cookie", edits=[("src/aes_encryptor.cpp", "\tcbc_->decrypt(cipher.c_str(),&full_plain[0],real_size);", "\tcbc_->set_iv(cipher.c_str(),block_size);\n\tcbc_->decrypt(cipher.c_str(),&full_plain[0],real_size);")]),
     # own: hmac encryptor verifies before checking there is room for a digest -> shorter comparison
     dict(name="hmac-compares-half-digest", edits=[("src/hmac_encryptor.cpp", "bool ok = equal(&mac[0],cipher.c_str() + message_size,digest_size);", "bool ok = equal(&mac[0],cipher.c_str() + message_size,digest_size/2);")]),
     # own: cleared cookie forgotten on a bad MAC
